@@ -5,6 +5,7 @@ import json, os, sys
 VERIF = os.path.dirname(os.path.dirname(os.path.abspath(__file__)))
 paths = [os.path.join(VERIF, "selftest", "results.jsonl")] + [a for a in sys.argv[1:] if a.endswith(".jsonl")]
 latest = {}
+cross = {}  # (change, tier) -> {other property: (at, rc)}: the latest run of every OTHER property's check against the change
 for p in paths:
     if not os.path.exists(p):
         continue
@@ -14,6 +15,11 @@ for p in paths:
         except Exception:
             continue
         key = (r["change"], r.get("tier", "quick"))
+        for k, v in r.get("checks", {}).items():
+            if k != r["property"] and (k not in cross.setdefault(key, {}) or r.get("at", "") >= cross[key][k][0]):
+                cross[key][k] = (r.get("at", ""), v.get("rc"))
+        if r["property"] not in r.get("checks", {}) and r.get("result") not in ("retired", "patch-does-not-apply", "does-not-compile"):
+            continue  # a run of other properties' checks only (cross-detection)
         if key not in latest or r.get("at", "") >= latest[key].get("at", ""):
             latest[key] = r
 rows = []
@@ -31,7 +37,7 @@ for (change, tier), r in sorted(latest.items()):
     unit = ""
     if first.startswith("Test") or first[:1].isalpha():
         unit = first.split(" ")[0] + " " + (first.split("[")[1].split("]")[0] if "[" in first else "")
-    others = [k for k, v in r.get("checks", {}).items() if k != prop and v.get("rc") == 1]
+    others = sorted(k for k, (at, rc) in cross.get((change, tier), {}).items() if rc == 1)
     needs = (meta.get("needs_to_manifest") or "").replace("\n", " ").replace("|", "/")
     if len(needs) > 230:
         needs = needs[:227] + "..."
